@@ -18,7 +18,7 @@ EXPLANATION = (
     "symmetric, PSD and K - Sigma PSD (diagonals and 2x2 determinants >= 0); evidence == -1/2 r^T J^-1 r - 1/2 log det "
     "J with J = A K A^T + S, r = y - A m; evidence gradient == symbolic derivative, same value."
 )
-BOUNDS = {"quick": "<=2 parameters, <=2 data (shapes 1x2, 2x1, 2x2)", "thorough": "adds 3 data x 2 parameters and 2 data x 3 parameters (identities only)"}
+BOUNDS = {"quick": "<=2 parameters, <=2 data (shapes 1x2, 2x1, 2x2)", "thorough": "adds 3 data x 2 parameters (posterior identities) and the 2x2 evidence gradient; 3 parameters are outside reach (normal forms of 3x3 adjugate inverses did not finish in 20 min)"}
 ASSUMPTIONS = [
     "floats as reals; pivots of the Gaussian elimination non-zero (I + K W is non-singular for SPD K, PSD W)",
     "prior covariance K = Lk.Lk^T with positive diagonal (any SPD matrix)",
@@ -125,7 +125,7 @@ def _inv(h, M):
 
 
 SHAPES_Q = [dict(m=1, p=2), dict(m=2, p=1), dict(m=2, p=2), dict(m=1, p=1)]
-SHAPES_T = [dict(m=3, p=2), dict(m=2, p=3)]
+SHAPES_T = [dict(m=3, p=2)]
 
 
 @unit("C17", quick=SHAPES_Q, thorough=SHAPES_T, cost=5, timeout_ms=60000)
@@ -201,7 +201,7 @@ def posterior_covariance_psd_and_below_prior(h, m, p):
         h.ge("det(K - Sigma) >= 0", detD, 0.0)
 
 
-@unit("C17", quick=[dict(m=1, p=2), dict(m=2, p=1), dict(m=2, p=2)], thorough=[dict(m=2, p=3)], cost=6, timeout_ms=60000)
+@unit("C17", quick=[dict(m=1, p=2), dict(m=2, p=1), dict(m=2, p=2)], cost=6, timeout_ms=60000)
 def evidence_is_mvn_logpdf(h, m, p):
     iv, inv, A, y, e, th, K, mu0, pm = _setup(h, m, p)
     h.allow(np.linalg.LinAlgError)
